@@ -60,6 +60,10 @@ type Finding struct {
 type Outcome struct {
 	Results  []*Result
 	Findings []Finding
+	// Incomplete: the real runtime showed a behaviour no simulated execution
+	// reproduced (not replayable). Reported with exit 2 unless the campaign
+	// also has replayable violations to report.
+	Incomplete string
 }
 
 // Property is one campaign.
@@ -346,6 +350,7 @@ func (s *Stats) AddSample(v any) {
 type Report struct {
 	Violations []*Case // minimised, unknown
 	Known      []KnownHit
+	Incomplete []string
 }
 
 type KnownHit struct {
@@ -412,6 +417,7 @@ func RunCampaign(env *Env, p Property, opt Options, st *Stats) (*Report, error) 
 		firstErr error
 		wg       sync.WaitGroup
 		next     int
+		incomplete []string
 	)
 	worker := func() {
 		defer wg.Done()
@@ -440,6 +446,13 @@ func RunCampaign(env *Env, p Property, opt Options, st *Stats) (*Report, error) 
 			st.mu.Lock()
 			st.Cases++
 			st.mu.Unlock()
+			if out.Incomplete != "" {
+				mu.Lock()
+				if len(incomplete) < 5 {
+					incomplete = append(incomplete, out.Incomplete)
+				}
+				mu.Unlock()
+			}
 			for i := range c.Steps {
 				if i < len(out.Results) && out.Results[i] != nil {
 					st.Observe(c, &c.Steps[i], out.Results[i])
@@ -467,7 +480,7 @@ func RunCampaign(env *Env, p Property, opt Options, st *Stats) (*Report, error) 
 		return nil, firstErr
 	}
 
-	rep := &Report{}
+	rep := &Report{Incomplete: incomplete}
 	sigs := make([]string, 0, len(bySig))
 	for s := range bySig {
 		sigs = append(sigs, s)
